@@ -9,6 +9,7 @@ import (
 	"verif/internal/defs"
 	"verif/internal/gen"
 	"verif/internal/gx"
+	"verif/internal/jmut"
 	"verif/internal/refcalc"
 )
 
@@ -374,4 +375,65 @@ type refOut = refcalc.Out
 
 func refCalcWith(r *billRun, w *billWorld, extra int) (*refcalc.Out, error) {
 	return refcalc.Calculate(r.RefIn, &refcalc.Env{Decimals: w.decimals, Rule: r.Rule, Retained: w.retained(r.Real.Regime), Extra: extra})
+}
+
+// staleEdit takes a calculated document (with its totals and per-row computed
+// members still in place), removes one kind of input row and returns the
+// result: recalculating it has to give what calculating the edited input from
+// scratch gives, so nothing computed earlier may survive.
+func staleEdit(out []byte, pick func(n int) int) (name string, edited []byte) {
+	n, err := jmut.Parse(out)
+	if err != nil || n.K != jmut.Obj {
+		return "", nil
+	}
+	type ed struct {
+		name string
+		ok   bool
+		do   func()
+	}
+	lines := n.Get("lines")
+	hasLines := lines != nil && lines.K == jmut.Arr && len(lines.A) > 0
+	firstLineHas := func(k string) bool {
+		return hasLines && lines.A[0].K == jmut.Obj && lines.A[0].Get(k) != nil
+	}
+	pay := n.Get("payment")
+	tx := n.Get("tax")
+	eds := []ed{
+		{"charges", n.Get("charges") != nil, func() { n.Del("charges") }},
+		{"discounts", n.Get("discounts") != nil, func() { n.Del("discounts") }},
+		{"payment", pay != nil, func() { n.Del("payment") }},
+		{"payment.advances", pay != nil && pay.K == jmut.Obj && pay.Get("advances") != nil, func() { pay.Del("advances") }},
+		{"last-line", hasLines && len(lines.A) > 1, func() { lines.A = lines.A[:len(lines.A)-1] }},
+		{"lines[0].charges", firstLineHas("charges"), func() { lines.A[0].Del("charges") }},
+		{"lines[0].discounts", firstLineHas("discounts"), func() { lines.A[0].Del("discounts") }},
+		{"tax.prices_include", tx != nil && tx.K == jmut.Obj && tx.Get("prices_include") != nil, func() { tx.Del("prices_include") }},
+		{"all-line-taxes", hasLines && firstLineHas("taxes"), func() {
+			for _, l := range lines.A {
+				if l.K == jmut.Obj {
+					l.Del("taxes")
+				}
+			}
+			for _, k := range []string{"discounts", "charges"} {
+				if rows := n.Get(k); rows != nil && rows.K == jmut.Arr {
+					for _, r := range rows.A {
+						if r.K == jmut.Obj {
+							r.Del("taxes")
+						}
+					}
+				}
+			}
+		}},
+	}
+	var app []ed
+	for _, e := range eds {
+		if e.ok {
+			app = append(app, e)
+		}
+	}
+	if len(app) == 0 {
+		return "", nil
+	}
+	e := app[pick(len(app))]
+	e.do()
+	return e.name, n.Bytes()
 }
